@@ -171,7 +171,10 @@ func c11Poll(c *eng.Ctx, poll *ssa.Function) {
 		if !ok {
 			return
 		}
-		if _, isParam := eng.Origin(mu.Map).(*ssa.Parameter); !isParam {
+		// the update set: a parameter, or a map poll makes and returns
+		switch eng.Origin(mu.Map).(type) {
+		case *ssa.Parameter, *ssa.MakeMap:
+		default:
 			return
 		}
 		if eng.IsNilConst(eng.Origin(mu.Value)) {
@@ -278,7 +281,7 @@ func c11Poll(c *eng.Ctx, poll *ssa.Function) {
 					rv := eng.RetVals(r)
 					if normalRet[r] {
 						bad = "reaches the ordinary return " + eng.InstrStr(r) + " (nil when no error was recorded so far)"
-					} else if len(rv) > 0 && eng.IsNilConst(eng.Origin(rv[0])) {
+					} else if ei := errResultIndex(poll); ei >= 0 && ei < len(rv) && eng.IsNilConst(eng.Origin(rv[ei])) {
 						bad = "returns nil"
 					}
 				}
@@ -461,18 +464,30 @@ func c11Refresh(c *eng.Ctx, refresh, poll, apply *ssa.Function) {
 	}
 	ok := false
 	for _, cond := range eng.FactsAt(applyCall) {
-		if v, isNil, isE := cond.ErrCheck(); isE && isNil && eng.Same(v, pollCall) {
+		if v, isNil, isE := cond.ErrCheck(); isE && isNil && eng.Same(v, saveErr(pollCall)) {
 			ok = true
 		}
 	}
 	c.Check(ok, "R-C11-2", cl, applyCall.Pos(), eng.CallStr(&applyCall.Call), "updates are applied only on the nil-error edge of poll (a failed poll applies nothing)", "holding here: "+eng.FactsString(applyCall))
 	// same update set, made afresh for this round
-	sameSet := len(pollCall.Call.Args) == 3 && len(applyCall.Call.Args) == 2 && eng.Same(pollCall.Call.Args[2], applyCall.Call.Args[1])
-	_, fresh := eng.Origin(pollCall.Call.Args[len(pollCall.Call.Args)-1]).(*ssa.MakeMap)
-	c.Check(sameSet && fresh, "R-C11-2", cl, applyCall.Pos(), "update set handed from poll to the apply step", "the same map, created empty for this round (nothing fetched by an earlier, failed round can be applied later)", "same="+boolStr(sameSet)+" fresh="+boolStr(fresh)+": "+eng.ValStr(pollCall.Call.Args[len(pollCall.Call.Args)-1]))
+	// either the round makes the map and hands it to both, or poll makes it and returns it
+	var sameSet, fresh bool
+	handed := applyCall.Call.Args[len(applyCall.Call.Args)-1]
+	if pc, idx := eng.TupleCall(handed); pc == pollCall && idx == 0 {
+		sameSet = true
+		inner, _ := eng.ThroughHelper(handed, func(g *ssa.Function) bool { return g == poll })
+		if inner != nil {
+			_, fresh = eng.Origin(inner).(*ssa.MakeMap)
+		}
+	} else {
+		last := pollCall.Call.Args[len(pollCall.Call.Args)-1]
+		sameSet = len(applyCall.Call.Args) == 2 && eng.Same(last, handed)
+		_, fresh = eng.Origin(last).(*ssa.MakeMap)
+	}
+	c.Check(sameSet && fresh, "R-C11-2", cl, applyCall.Pos(), "update set handed from poll to the apply step", "the same map, created empty for this round (nothing fetched by an earlier, failed round can be applied later)", "same="+boolStr(sameSet)+" fresh="+boolStr(fresh)+": "+eng.ValStr(handed))
 	// both failures reported by the closure
 	for _, call := range []*ssa.Call{pollCall, applyCall} {
-		ev := ssa.Value(call)
+		ev := saveErr(call)
 		hit, path := eng.Search(cl, call, eng.AssumeErr(ev, false), nil, func(x ssa.Instruction) bool {
 			r, isR := x.(*ssa.Return)
 			if !isR {
@@ -501,12 +516,17 @@ func c11Refresh(c *eng.Ctx, refresh, poll, apply *ssa.Function) {
 	ferr := saveErr(fetch)
 	// the returned value
 	var joined ssa.Value
+	ei := errResultIndex(poll)
+	if ei < 0 {
+		c.Undecided("R-C11-2", poll, poll.Pos(), "result of poll", "no error result")
+		return
+	}
 	for _, r := range eng.Returns(poll) {
 		rv := eng.RetVals(r)
-		if call, _ := eng.TupleCall(rv[0]); call != nil && (eng.CalleeIs(&call.Call, "errors", "Join") || eng.CalleeIs(&call.Call, "tailscale.com/util/multierr", "New")) {
+		if call, _ := eng.TupleCall(rv[ei]); call != nil && (eng.CalleeIs(&call.Call, "errors", "Join") || eng.CalleeIs(&call.Call, "tailscale.com/util/multierr", "New")) {
 			joined = call.Call.Args[0]
-		} else if !eng.Same(rv[0], ferr) {
-			c.Bad("R-C11-2", poll, r.Pos(), eng.InstrStr(r), "poll returns the join of all fetch errors", "returns "+eng.ValStr(rv[0]))
+		} else if !eng.Same(rv[ei], ferr) {
+			c.Bad("R-C11-2", poll, r.Pos(), eng.InstrStr(r), "poll returns the join of all fetch errors", "returns "+eng.ValStr(rv[ei]))
 		}
 	}
 	if joined == nil {
@@ -570,14 +590,19 @@ func c11Refresh(c *eng.Ctx, refresh, poll, apply *ssa.Function) {
 
 func c11Apply(c *eng.Ctx, apply *ssa.Function) {
 	p := c.P
-	loops := mapLoops(apply)
-	var loop *mapLoop
-	for _, l := range loops {
-		if _, isP := eng.Origin(l.Range.X).(*ssa.Parameter); isP {
-			ll := l
-			loop = &ll
+	// the loop over the update set may be in the function that calls the
+	// installing helper
+	paramLoop := func(f *ssa.Function) *mapLoop {
+		for _, l := range mapLoops(f) {
+			if _, isP := eng.Origin(l.Range.X).(*ssa.Parameter); isP {
+				ll := l
+				return &ll
+			}
 		}
+		return nil
 	}
+	root := eng.HelperRoot(apply, func(f *ssa.Function) bool { return paramLoop(f) != nil })
+	loop := paramLoop(root)
 	if loop == nil {
 		c.Undecided("R-C11-3", apply, apply.Pos(), "applyUpdates loop", "no loop over the update set")
 		return
@@ -594,15 +619,15 @@ func c11Apply(c *eng.Ctx, apply *ssa.Function) {
 		fa := st.Addr.(*ssa.FieldAddr)
 		okName := false
 		if lk, isLk := eng.Origin(fa.X).(*ssa.Lookup); isLk {
-			if nm, isAct := activeMapOf(lk.X); isAct && nm == "m" && eng.Origin(lk.Index) == loop.Key {
+			if nm, isAct := activeMapOf(lk.X); isAct && nm == "m" && eng.OriginX(lk.Index) == loop.Key {
 				okName = true
 			}
 		}
-		c.Check(okName && eng.Origin(st.Val) == loop.Val, "R-C11-3", apply, a.In.Pos(), eng.InstrStr(a.In), "applyUpdates installs updates[name] into the entry of that same name", "")
+		c.Check(okName && eng.OriginX(st.Val) == loop.Val, "R-C11-3", apply, a.In.Pos(), eng.InstrStr(a.In), "applyUpdates installs updates[name] into the entry of that same name", "")
 		// R-C11-4: under the lock, followed by a flush before return
 		hs := l.HeldBefore(a.In)
 		c.Check(l.HoldsReal(hs, keyStore), "R-C11-4", apply, a.In.Pos(), eng.InstrStr(a.In)+" [lock]", "installs happen with Store.active.Mutex held", "held: "+l.StateStr(hs))
-		hit, path := eng.Search(apply, a.In, nil, func(x ssa.Instruction) bool {
+		hit, path := eng.SearchX(apply, a.In, nil, func(x ssa.Instruction) bool {
 			if call, ok := x.(*ssa.Call); ok {
 				if cal := eng.Callee(&call.Call); cal != nil && reachesCacheWrite(p, cal) {
 					return true
@@ -621,7 +646,7 @@ func c11Apply(c *eng.Ctx, apply *ssa.Function) {
 		c.Bad("R-C11-3", apply, apply.Pos(), "applyUpdates", "new values are installed", "no store to cachedSecret.Secret in applyUpdates")
 	}
 	// single critical section: no unlock inside the loop
-	eng.Instrs(apply, func(in ssa.Instruction) {
+	eng.InstrsDeep(root, func(_ *ssa.Function, in ssa.Instruction) {
 		if call, ok := in.(*ssa.Call); ok {
 			if op, k, isL := eng.LockOp(&call.Call); isL && k == keyStore && op == "Unlock" {
 				c.Bad("R-C11-4", apply, in.Pos(), eng.InstrStr(in), "all installs of one poll happen in one critical section", "explicit unlock inside applyUpdates")
@@ -680,10 +705,45 @@ func c11Keys(c *eng.Ctx, refresh, poll, apply *ssa.Function) {
 		c.Undecided("R-C11-5", nil, 0, "single-flight call sites", "fewer than 2 found")
 	}
 	noForget(c, "R-C11-5")
-	// Refresh is the only route to poll/applyUpdates
+	// Refresh's single-flight round is the only route to poll/applyUpdates:
+	// walking up the call graph from either, every chain of callers ends in
+	// the function literal handed to the "poll" flight (possibly through
+	// helpers called from it), never in another entry point
+	var gate *ssa.Function
+	eng.Instrs(refresh, func(in ssa.Instruction) {
+		call, ok := in.(*ssa.Call)
+		if !ok || len(call.Call.Args) < 3 {
+			return
+		}
+		cal := call.Call.StaticCallee()
+		if cal == nil || cal.Pkg == nil || cal.Pkg.Pkg.Path() != "golang.org/x/sync/singleflight" {
+			return
+		}
+		if mc, isMC := eng.Origin(call.Call.Args[2]).(*ssa.MakeClosure); isMC {
+			gate = mc.Fn.(*ssa.Function)
+		}
+	})
 	for _, target := range []*ssa.Function{poll, apply} {
-		for _, e := range p.CallGraph().CallersOf(target) {
-			c.Check(eng.Outer(e.Caller) == refresh, "R-C11-5", e.Caller, e.Site.Pos(), "caller of "+target.Name()+": "+eng.FName(e.Caller), "poll and applyUpdates run only inside Refresh's single-flight round (two apply phases never overlap)", "")
+		seen := map[*ssa.Function]bool{target: true}
+		work := []*ssa.Function{target}
+		for len(work) > 0 {
+			f := work[0]
+			work = work[1:]
+			edges := p.CallGraph().CallersOf(f)
+			if len(edges) == 0 {
+				c.Bad("R-C11-5", f, f.Pos(), "route to "+target.Name()+" from "+eng.FName(f), "poll and applyUpdates run only inside Refresh's single-flight round (two apply phases never overlap)", eng.FName(f)+" has no caller inside the round: it is an entry point of its own")
+			}
+			for _, e := range edges {
+				switch {
+				case e.Caller == gate:
+					c.Ok("R-C11-5", e.Caller, e.Site.Pos(), "caller of "+f.Name()+": "+eng.FName(e.Caller), "inside the function run by the \"poll\" flight")
+				case e.Kind != "static" || (e.Caller.Object() != nil && e.Caller.Object().Exported()):
+					c.Bad("R-C11-5", e.Caller, e.Site.Pos(), "caller of "+f.Name()+": "+eng.FName(e.Caller), "poll and applyUpdates run only inside Refresh's single-flight round (two apply phases never overlap)", "called outside the round")
+				case !seen[e.Caller]:
+					seen[e.Caller] = true
+					work = append(work, e.Caller)
+				}
+			}
 		}
 	}
 }
